@@ -252,7 +252,8 @@ class Proxy:
                     self.listeners.pool[index],
                 )._port,
             )
-        if self.flags.port in ports:
+        # --port is not listened upon when a unix socket is used
+        if not self.flags.unix_socket_path and self.flags.port in ports:
             ports.remove(self.flags.port)
         self.flags.ports = list(ports)
         # Write ports to port file
